@@ -132,7 +132,9 @@ def run(prog, tier):
                                  REL, ps.lineno))
     else:
         kb = None
-        for pat in (f"rng.choice(_W.size, size={ns}, p=_W)", f"rng.choice(_W.size, {ns}, p=_W)", f"rng.choice(len(_W), size={ns}, p=_W)"):
+        for pat in (f"rng.choice(_W.size, size={ns}, p=_W)", f"rng.choice(_W.size, {ns}, p=_W)", f"rng.choice(len(_W), size={ns}, p=_W)",
+                    f"rng.choice(_W.shape[0], size={ns}, p=_W)", f"rng.choice(len(_W), {ns}, p=_W)", f"rng.choice(_W.shape[0], {ns}, p=_W)",
+                    f"rng.choice(arange(_W.size), size={ns}, p=_W)", f"rng.choice(arange(len(_W)), size={ns}, p=_W)"):
             kb = pmatch(ast.parse(b["_k"], mode="eval").body, pat)
             if kb is not None:
                 break
